@@ -55,8 +55,37 @@ def handleFam (ops : List String) : String :=
   | some os => " ".intercalate ((wrun (World.empty : World Rat) os).2.map showOut)
   | none => "bad-op"
 
+/-! #### `rclone`: IEEE replay of a clone (weights and values are arbitrary doubles in the normal range, sent as
+bit patterns).  The model runs over `Fitness.R64` (exact operation + one rounding to 53 bits); every number it
+produces is cross-checked against the machine's own `Float` arithmetic (last token). -/
+
+def r64List (l : List Float) : List R64 := l.map (fun x => ⟨floatToRat x⟩)
+def showR64s (l : List R64) : String := showList showRat (l.map (·.q))
+
+def handleRclone (ws vs : String) : String :=
+  match (do let w ← parseList parseFloat ws; let v ← parseList parseFloat vs; pure (w, v)) with
+  | some (wF, vF) =>
+    let w := r64List wF
+    match setValues w (r64List vF) with
+    | none => "assert"
+    | some f =>
+      let c := deepcopy f
+      let idx := List.range f.wvalues.length
+      let rd := (reclone w f).getD ⟨[]⟩
+      let ri := (recloneInv ⟨1⟩ w f).getD ⟨[]⟩
+      -- the same three computations on the machine's doubles, Python's operation order
+      let wvF := List.zipWith (· * ·) vF wF
+      let rdF := List.zipWith (· * ·) (List.zipWith (· / ·) wvF wF) wF
+      let riF := List.zipWith (· * ·) (List.zipWith (· * ·) wvF (wF.map (1.0 / ·))) wF
+      let agree := decide (wvF.map floatToRat = f.wvalues.map (·.q)) && decide (rdF.map floatToRat = rd.wvalues.map (·.q))
+        && decide (riF.map floatToRat = ri.wvalues.map (·.q))
+      showR64s f.wvalues ++ " " ++ showR64s c.wvalues ++ " " ++ showR64s rd.wvalues ++ " " ++ showR64s ri.wvalues ++ " "
+        ++ showBits [eq c f, ne c f, lt c f, gt c f, dominates f c idx idx, dominates c f idx idx, valid c] ++ " " ++ showBool agree
+  | none => "bad-op"
+
 def handle : List String → String
   | "fam" :: ops => handleFam ops
+  | ["rclone", ws, vs] => handleRclone ws vs
   | ["cmp", ws, a, b] =>
     match (do let w ← parseList parseRat ws; let x ← mkFit w a; let y ← mkFit w b; pure (x, y)) with
     | some (x, y) => showBits [lt x y, le x y, gt x y, ge x y, eq x y, ne x y]
